@@ -3,6 +3,7 @@ package main
 // C05 — decoding terminates with work and memory bounded by the frame size.
 
 import (
+	"math"
 	"fmt"
 	"go/token"
 	"go/types"
@@ -13,6 +14,7 @@ import (
 
 func init() {
 	register(&PropertyCheck{ID: "C05", Level: "other", Run: checkC05, Canaries: []Canary{
+		{Name: "filter-helper-reads-only-when-data-is-left", Rule: "R5.1", Where: "(*Subscribe).UnmarshalBinary", Edits: []Edit{{"subscribe.go", "\tfor {\n\t\tvar f TopicFilter\n\t\tb.get(&f.filter)\n\t\tb.get(&f.options)\n\t\tif b.err != nil {\n\t\t\tbreak\n\t\t}\n\t\tp.filters = append(p.filters, f)\n\t\tif b.i == len(data) {\n\t\t\tbreak\n\t\t}\n\t}\n\treturn b.err", "\t// the payload holds at least one topic filter\n\tfor more := true; more; more = !b.atEnd() {\n\t\tf, err := b.getTopicFilter()\n\t\tif err != nil {\n\t\t\treturn err\n\t\t}\n\t\tp.filters = append(p.filters, f)\n\t}\n\treturn nil\n}\n\n// getTopicFilter reads one filter and its subscription options.\nfunc (b *buffer) getTopicFilter() (f TopicFilter, err error) {\n\tif !b.atEnd() {\n\t\tb.get(&f.filter)\n\t\tb.get(&f.options)\n\t}\n\treturn f, b.err"}, {"unsubscribe.go", "\tfor {\n\t\tvar f wstring\n\t\tb.get(&f)\n\t\tif b.err != nil {\n\t\t\tbreak\n\t\t}\n\t\tp.filters = append(p.filters, f)\n\t\tif b.i == len(data) {\n\t\t\tbreak\n\t\t}\n\t}\n\treturn b.err", "\t// the payload holds at least one topic filter\n\tfor more := true; more; more = !b.atEnd() {\n\t\tvar f wstring\n\t\tif b.get(&f); b.err != nil {\n\t\t\treturn b.err\n\t\t}\n\t\tp.filters = append(p.filters, f)\n\t}\n\treturn nil"}}},
 		{Name: "property-loop-builds-a-string-by-concatenation", Rule: "R5.2", Where: "(*buffer).getAny", Edits: []Edit{{"buffer.go", "\tfor b.i < end {\n\t\tb.get(&id)\n\t\t// first failure stops the parsing\n\t\tif b.err != nil {\n\t\t\treturn\n\t\t}\n\t\tfield, hasField := fields[id]\n\t\tif hasField {\n\t\t\tb.get(field())\n\t\t\tcontinue\n\t\t}\n\t\tswitch id {\n\t\tcase UserProperty:\n\t\t\tvar p UserProp\n\t\t\tb.get(&p)\n\t\t\taddProp(p)\n\n\t\tcase SubscriptionID:\n\t\t\tvar sub vbint\n\t\t\tb.get(&sub)\n\t\t\tif b.addSubscriptionID != nil {\n\t\t\t\tb.addSubscriptionID(uint32(sub))\n\t\t\t}\n\n\t\tdefault:\n\t\t\tb.err = fmt.Errorf(\"unknown property id 0x%02x\", id)", "\tvar seen string // identifiers read so far, for the error message\n\tfor b.i < end {\n\t\tb.get(&id)\n\t\t// first failure stops the parsing\n\t\tif b.err != nil {\n\t\t\treturn\n\t\t}\n\t\tseen += fmt.Sprintf(\" %02x\", byte(id))\n\t\tfield, hasField := fields[id]\n\t\tif hasField {\n\t\t\tb.get(field())\n\t\t\tcontinue\n\t\t}\n\t\tswitch id {\n\t\tcase UserProperty:\n\t\t\tvar p UserProp\n\t\t\tb.get(&p)\n\t\t\taddProp(p)\n\n\t\tcase SubscriptionID:\n\t\t\tvar sub vbint\n\t\t\tb.get(&sub)\n\t\t\tif b.addSubscriptionID != nil {\n\t\t\t\tb.addSubscriptionID(uint32(sub))\n\t\t\t}\n\n\t\tdefault:\n\t\t\tb.err = fmt.Errorf(\"unknown property id 0x%02x, read so far:%s\", id, seen)"}}},
 		{Name: "reason-code-count-taken-from-the-wire", Rule: "R5.1", Where: "(*SubAck).UnmarshalBinary", Edits: []Edit{{"suback.go", "\tp.reasonCodes = make([]uint8, len(data)-b.i)\n\n\tfor i, _ := range p.reasonCodes {\n\t\tvar v wuint8\n\t\tb.get(&v)\n\t\tp.reasonCodes[i] = uint8(v)\n\t}", "\tvar count wuint16\n\tb.get(&count)\n\tfor k := 0; k < int(count); k++ {\n\t\tp.reasonCodes = append(p.reasonCodes, 0)\n\t}"}}},
 		{Name: "loop-counted-by-the-length-of-the-list-it-appends-to", Silent: true, Edits: []Edit{{"suback.go", "\tp.reasonCodes = make([]uint8, len(data)-b.i)\n\n\tfor i, _ := range p.reasonCodes {\n\t\tvar v wuint8\n\t\tb.get(&v)\n\t\tp.reasonCodes[i] = uint8(v)\n\t}", "\tleft := len(data) - b.i\n\tcodes := make([]uint8, 0, left)\n\tfor len(codes) < left {\n\t\tvar v wuint8\n\t\tb.get(&v)\n\t\tcodes = append(codes, uint8(v))\n\t}\n\tp.reasonCodes = codes"}}},
@@ -304,6 +306,25 @@ func checkC05(p *Prog, c *Check) {
 							c.OK("R5.2", cons, pos, fmt.Sprintf("size %s <= len(%s): bounded by the bytes present", l, prm.Name()))
 							done = true
 							break
+						}
+					}
+					// … or by the data of a sequential reader the function is handed (the frame it was built on)
+					if cur := p.Cursor(); !done && cur.G != nil {
+						for _, prm := range fn.Params {
+							pt, ok := prm.Type().Underlying().(*types.Pointer)
+							if !ok || !types.Identical(pt.Elem(), cur.T) {
+								continue
+							}
+							if pr.cur == nil {
+								pr.cur = cur
+							}
+							k := fmt.Sprintf("len(*(&(%s).%d))", pr.key(prm), cur.D)
+							pr.atomRange(k, 0, math.MaxInt64)
+							if pr.Prove(b, linAtom(k).sub(l)) {
+								c.OK("R5.2", cons, pos, fmt.Sprintf("size %s <= the length of the data of the sequential reader %s: bounded by the bytes present", l, prm.Name()))
+								done = true
+								break
+							}
 						}
 					}
 					if !done {
